@@ -548,13 +548,28 @@ unsafe fn mediate(mut ev: Ev, real: &mut dyn FnMut(&mut Ev, bool) -> i64) -> i64
         Action::LoseTail(e) => {
             // only what was written and not flushed since can be lost
             let dirty = DIRTY.lock().unwrap().as_ref().map(|d| d.contains(&ev.ino)).unwrap_or(false);
-            if ev.kind == Kind::Close && ev.fd >= 0 && dirty {
+            // (a failing fsync reports the write-back error once and leaves the pages clean: the data is lost and a
+            // second fsync of the same file succeeds; a failing close of unflushed data loses it the same way)
+            if matches!(ev.kind, Kind::Close | Kind::Fsync) && ev.fd >= 0 && dirty {
                 let mut st: libc::stat = std::mem::zeroed();
                 if libc::syscall(libc::SYS_fstat, ev.fd, &mut st) == 0 && (st.st_mode & libc::S_IFMT) == libc::S_IFREG && st.st_size > 1 {
-                    libc::syscall(libc::SYS_ftruncate, ev.fd, st.st_size / 2);
+                    if libc::syscall(libc::SYS_ftruncate, ev.fd, st.st_size / 2) != 0 {
+                        // (a descriptor opened read-only, as for the flush of a by-path source)
+                        if let Some(p) = &ev.path {
+                            if let Ok(c) = std::ffi::CString::new(p.as_bytes()) {
+                                libc::syscall(libc::SYS_truncate, c.as_ptr(), st.st_size / 2);
+                            }
+                        }
+                    }
                 }
             }
-            ev.effect_done = real(&mut ev, false) >= 0;
+            if ev.kind == Kind::Fsync {
+                if let Some(d) = DIRTY.lock().unwrap().as_mut() {
+                    d.remove(&ev.ino);
+                }
+            } else {
+                ev.effect_done = real(&mut ev, false) >= 0;
+            }
             ev.injected = true;
             set_errno(e);
             -1
@@ -570,7 +585,9 @@ unsafe fn mediate(mut ev: Ev, real: &mut dyn FnMut(&mut Ev, bool) -> i64) -> i64
             Kind::Write | Kind::CopyRange | Kind::Truncate => {
                 DIRTY.lock().unwrap().get_or_insert_with(Default::default).insert(ev.ino);
             }
-            Kind::Fsync => {
+            // (a filesystem that reports write-back failures at close, NFS-style, flushes at every close of the
+            // file: once a close has succeeded nothing written before it can be lost by a later one)
+            Kind::Fsync | Kind::Close => {
                 if let Some(d) = DIRTY.lock().unwrap().as_mut() {
                     d.remove(&ev.ino);
                 }
